@@ -76,11 +76,15 @@ def multi_programs(seed, n):
     rng = random.Random(seed * 17 + 1)
     out = []
     cfg = dslgen.Cfg(max_packets=7, max_fields=8)
+    # every other program lets several packets declare inline objects of one name: anything a
+    # generator remembers per NAME across packets then depends on the order it meets the packets in
+    cfg2 = dslgen.Cfg(max_packets=7, max_fields=8, unique_inline=False)
     while len(out) < n:
-        p = dslgen.gen_program(rng, cfg)
+        p = dslgen.gen_program(rng, cfg2 if len(out) % 2 else cfg)
         nm = sum(1 for pk in p["packets"] for f in pk["fields"] if f["kind"] == "match")
         if len(p["packets"]) >= 3 and nm >= 2:
             out.append(dslgen.render(p))
+    out.append("root packet NewOrder {\n    u32 Id,\n    repeat Leg {\n        u16 No,\n        string Sym,\n    },\n}\n\npacket CancelOrder {\n    u32 Id,\n    repeat Leg {\n        u16 No,\n        string Sym,\n    },\n}\n\npacket Amend {\n    Leg {\n        u16 No,\n        string Sym,\n    },\n}\n")
     out.append("options {\n    FixedStringPadFromLeft = true;\n}\n\nroot packet R {\n    zchar[4] a,\n    @leftPad('\\x00')\n    char[3] b,\n    char[5] c,\n    u8 k,\n    match k as m {\n        1 : A,\n        2 : B,\n    },\n    u16 k2,\n    match k2 as m2 {\n        7 : B,\n        8 : C,\n    },\n}\n\npacket A {\n    zchar[2] z,\n    B b,\n}\n\npacket B {\n    C c,\n}\n\npacket C {\n    repeat zchar[3] zs,\n}\n")
     return out
 
@@ -153,6 +157,34 @@ def read_tree(root):
     return out
 
 
+# names that are initialisms / already in one of the case conventions: what a case-conversion
+# library keeps in configurable tables
+ACRONYMS = """root packet ID {
+    u64 ID,
+    u32 URL,
+    u16 API,
+    u8 Id,
+    u8 id,
+    u16 HTTP,
+    u16 JSON,
+    char[4] UUID,
+    u8 k,
+    match k as IP {
+        1 : URL,
+        2 : API,
+    },
+}
+
+packet URL {
+    u8 ID,
+}
+
+packet API {
+    string ID,
+}
+"""
+
+
 def run_c14(ctx):
     regenerate_facts(ctx)
     check_obligations(ctx, "C14")
@@ -198,6 +230,37 @@ def run_c14(ctx):
         else:
             ctx.count("orders_ok")
     ctx.sample({"orders_per_program": len(orders[0]), "example_order": orders[0][2] if len(orders[0]) > 2 else orders[0][0]})
+    # Process-separated: state that is not in the model (package variables, library configuration)
+    # sticks to the harness process, so "alone" above is not alone with respect to it.  One CLI
+    # process per target against one CLI process for all targets.
+    hbin, cbin = build_harness()
+    d = scratch()
+    try:
+        for t in texts[: (3 if ctx.tier == "quick" else 25)] + [ACRONYMS]:
+            f = os.path.join(d, "x.dsl")
+            with open(f, "w") as fh:
+                fh.write(t)
+            def cli(langs, tag):
+                o = os.path.join(d, tag)
+                rm(o)
+                args = [cbin, "compile", "-f", f]
+                for lang in langs:
+                    args += [FLAG[lang], os.path.join(o, lang)]
+                subprocess.run(args, cwd=d, capture_output=True, timeout=120)
+                return {lang: read_tree(os.path.join(o, lang)) for lang in langs}
+            together = cli(ALL, "all")
+            for lang in ALL:
+                ctx.count("process_pairs")
+                alone = cli([lang], "one")[lang]
+                if alone != together[lang]:
+                    bad = sorted(k for k in set(alone) | set(together[lang]) if alone.get(k) != together[lang].get(k))
+                    ctx.finding("interference/process/%s" % lang,
+                                "`compile` writes other %s files when the other targets are requested in the same invocation" % lang,
+                                {"dsl": t, "target": lang, "files": bad[:5],
+                                 "alone": alone.get(bad[0], b"").decode("utf-8", "replace")[:1500],
+                                 "together": together[lang].get(bad[0], b"").decode("utf-8", "replace")[:1500]})
+    finally:
+        rm(d)
     if ctx.broken and not ctx.violations:
         ctx.finding("obligation/C14", "; ".join(ctx.broken)[:600], {"broken": ctx.broken}, False)
     ctx.cov.update({"evaluations": len(reqs), "distinct_nontrivial": len(set(texts)),
